@@ -135,11 +135,11 @@ def origins(fi, name_node):
     return out
 
 
-def guard_atoms(fi, stmt):
+def guard_atom_nodes(fi, stmt):
     """Atomic conditions known to hold at stmt: the conjuncts of every
-    dominating branch assumption, as (canonical expanded text, polarity).
-    None if a dominating assumption is a disjunction."""
-    out = []
+    dominating branch assumption, as (canonical expanded text, polarity,
+    expanded node).  None if a dominating assumption is a disjunction."""
+    out = {}
     for n in fi.cfg.nodes:
         if isinstance(n, Assume) and fi.cfg.dominates(n, stmt):
             cj = conjuncts(n.test, n.polarity)
@@ -148,10 +148,115 @@ def guard_atoms(fi, stmt):
             for c in cj:
                 if isinstance(c, Cmp):
                     e = ast.Compare(left=fi.expand(c.lhs), ops=[c.op()], comparators=[fi.expand(c.rhs)])
-                    out.append((_cx(e), True))
+                    out.setdefault((_cx(e), True), canon(e))
                 else:
-                    out.append((fi.xu(c[1]), c[2]))
-    return sorted(set(out))
+                    out.setdefault((fi.xu(c[1]), c[2]), canon(fi.expand(c[1])))
+    return [(t, pol, out[(t, pol)]) for t, pol in sorted(out)]
+
+
+def guard_atoms(fi, stmt):
+    """guard_atom_nodes as (canonical expanded text, polarity)."""
+    r = guard_atom_nodes(fi, stmt)
+    return None if r is None else [(t, pol) for t, pol, _ in r]
+
+
+# --- a guard as a function of ONE flag: truth table over the abstract classes of
+# Python objects that `is` / `==` / bool() / isinstance(., bool) can tell apart
+#   'T' the singleton True      't' any other truthy object (np.True_, 1, 'yes')
+#   'F' the singleton False     'f' any other falsy object  (np.False_, 0, None, '')
+# (own three-valued interpreter of the SYNTAX of the condition - nothing from
+# the analysed code is executed); None = not decided for that class.
+_FLAG_CLASSES = ('T', 'F', 't', 'f')
+_FLAG_CLASS_TEXT = {'T': 'the singleton True', 'F': 'the singleton False',
+                    't': 'a truthy flag that is not the singleton True (numpy.bool_ of a comparison, 1, a non-empty string)',
+                    'f': 'a falsy flag that is not the singleton False (numpy.bool_, 0, None)'}
+
+
+def _abs_truth(v):
+    return None if v is None else v in ('T', 't')
+
+
+def _abs_bool(b):
+    return None if b is None else ('T' if b else 'F')
+
+
+def _abs_flag_value(e, flag, cls):
+    """Abstract value ('T','F','t','f', None=unknown) of expression e when the
+    sub-expression whose canonical text is `flag` has class cls."""
+    if _cx(e) == flag:
+        return cls
+    if isinstance(e, ast.Constant):
+        if e.value is True:
+            return 'T'
+        if e.value is False:
+            return 'F'
+        if e.value is None or isinstance(e.value, (int, float, str, bytes)):
+            return 't' if e.value else 'f'
+        return None
+    if isinstance(e, ast.UnaryOp) and isinstance(e.op, ast.Not):
+        t = _abs_truth(_abs_flag_value(e.operand, flag, cls))
+        return _abs_bool(None if t is None else not t)
+    if isinstance(e, ast.BoolOp):
+        cur = None
+        for i, x in enumerate(e.values):
+            cur = _abs_flag_value(x, flag, cls)
+            t = _abs_truth(cur)
+            if t is None:
+                return None
+            if t != isinstance(e.op, ast.And):      # short circuit: falsy in `and`, truthy in `or`
+                return cur
+        return cur
+    if isinstance(e, ast.Call) and not e.keywords and len(e.args) == 1 and call_name(e) == 'bool':
+        return _abs_bool(_abs_truth(_abs_flag_value(e.args[0], flag, cls)))
+    if isinstance(e, ast.Call) and not e.keywords and len(e.args) == 2 and call_name(e) == 'isinstance' \
+            and isinstance(e.args[1], ast.Name) and e.args[1].id == 'bool':
+        v = _abs_flag_value(e.args[0], flag, cls)
+        return _abs_bool(None if v is None else v in ('T', 'F'))    # True and False are the only instances of bool
+    if isinstance(e, ast.Compare) and len(e.ops) == 1:
+        a, b = _abs_flag_value(e.left, flag, cls), _abs_flag_value(e.comparators[0], flag, cls)
+        if a is None or b is None:
+            return None
+        op = e.ops[0]
+        single = lambda x: x in ('T', 'F')
+        same = None
+        if isinstance(op, (ast.Is, ast.IsNot)):
+            if single(a) and single(b):
+                same = a == b
+            elif single(a) != single(b):
+                same = False            # a singleton is identical to nothing else
+            res = same if isinstance(op, ast.Is) else (None if same is None else not same)
+            return _abs_bool(res)
+        if isinstance(op, (ast.Eq, ast.NotEq)):
+            if single(a) and single(b):
+                same = a == b
+            elif {a, b} in ({'T', 'f'}, {'F', 't'}):
+                same = False            # True equals only truthy objects (1, np.True_), False only falsy ones
+            res = same if isinstance(op, ast.Eq) else (None if same is None else not same)
+            return _abs_bool(res)
+    return None
+
+
+def flag_guard_table(atoms, flag):
+    """{class: True/False/None}: does the conjunction of the guard atoms
+    (text, polarity, node) hold for a flag of that class?  None as a whole if
+    an atom involves anything but the flag and constants."""
+    for _, _, node in atoms:
+        rest = [n for n in ast.walk(node) if isinstance(n, ast.Name) and isinstance(n.ctx, ast.Load)
+                and n.id not in ('bool', 'isinstance', 'True', 'False', 'None')]
+        inside = {id(n) for x in ast.walk(node) if _cx(x) == flag for n in ast.walk(x)}
+        if any(id(n) not in inside for n in rest) or not inside and _cx(node) != flag:
+            return None
+    table = {}
+    for cls in _FLAG_CLASSES:
+        val = True
+        for _, pol, node in atoms:
+            t = _abs_truth(_abs_flag_value(node, flag, cls))
+            if t is None:
+                val = None if val is not False else False
+            elif t != pol:
+                val = False
+        table[cls] = val
+    return table
 
 
 def _atoms_text(atoms):
@@ -487,7 +592,8 @@ def _pipeline(ck, rule, mod, fn, qual, is_builder, trim_atom):
     tps = params(ck.repo.mod(TM).func('trim_disconnected'))
     tb = bind_args(tr, tps)
     targ = tb.get(tps[0]) if tb is not None else None
-    atoms = guard_atoms(fi, st)
+    atom_nodes = guard_atom_nodes(fi, st)
+    atoms = None if atom_nodes is None else [(t, pol) for t, pol, _ in atom_nodes]
     if targ is None or atoms is None:
         ck.missing(rule + '.trim', 'argument / condition of the trimming call: %s' % _short(st))
     else:
@@ -503,6 +609,7 @@ def _pipeline(ck, rule, mod, fn, qual, is_builder, trim_atom):
             # (unconditional, negated, guarded by conditions that do not mention it), or it depends on the flag AND
             # on the counted data (trimming must be a function of the configuration alone)
             import re
+            flag_note = ''
             mentions = lambda t, name: re.search(r'(?<![\w.])%s(?![\w])' % re.escape(name), t) is not None
             flag_pos = (trim_atom, True) in atoms
             richer = any(mentions(t, trim_atom) and t != trim_atom for t, _ in atoms)
@@ -514,6 +621,18 @@ def _pipeline(ck, rule, mod, fn, qual, is_builder, trim_atom):
                 vg = 'near'
             else:
                 vg = 'far'
+                # the flag inside a richer condition that is a function of the flag ALONE (`flag is True`,
+                # `flag == 1`, `isinstance(flag, bool) and flag`): decided by its truth table over the classes
+                # of flag objects; the choice must act through its truthiness, as in every other consumer
+                table = flag_guard_table(atom_nodes, trim_atom)
+                if table is not None:
+                    wrong = [c for c in _FLAG_CLASSES if table[c] is not None and table[c] != (c in ('T', 't'))]
+                    if wrong:
+                        vg = 'near'
+                        flag_note = '; for %s the trimming is %s' % (
+                            _FLAG_CLASS_TEXT[wrong[0]], 'skipped' if wrong[0] in ('T', 't') else 'performed')
+                    elif all(table[c] is not None for c in _FLAG_CLASSES):
+                        vg = 'match'
             # definite: a parameter or a pure numpy function of the counts other than a container conversion
             vc = 'match'
             if not okc:
@@ -526,8 +645,8 @@ def _pipeline(ck, rule, mod, fn, qual, is_builder, trim_atom):
                         vc = 'far'
             ck.decide(_worst(vg, vc), rule + '.trim', mod, st, qual, u(st),
                       'trimming iff %s, applied to the counted matrix' % trim_atom,
-                      'trim must be conditional on %s (found: %s) and be applied to the counts produced by assigns_to_counts%s'
-                      % (trim_atom, _atoms_text(atoms), '' if okc else ' (it receives `%s`, which is not that matrix)' % u(a)))
+                      'trim must be conditional on %s (found: %s%s) and be applied to the counts produced by assigns_to_counts%s'
+                      % (trim_atom, _atoms_text(atoms), flag_note, '' if okc else ' (it receives `%s`, which is not that matrix)' % u(a)))
     # --- the builder receives the counted, possibly trimmed matrix
     if any(isinstance(x, ast.Starred) for x in bd.args) or any(k.arg is None for k in bd.keywords):
         ck.missing(rule + '.builder', 'arguments of the builder call: %s' % _short(bd))
@@ -2006,6 +2125,22 @@ def d3_overwrite(ck, mod):
             ck.missing(rule, 'the removal of an existing directory under `force` in MSM.save')
 
 
+def _copy_aliases(fi, fn, name):
+    """Names that `name` is a plain copy of, transitively (`a = b`, also as an
+    element of a paired tuple assignment): ([name, b, ...], {alias: copy
+    statements on the chain from `name` down to the alias})."""
+    names, chain, todo = [name], {name: []}, [name]
+    while todo:
+        n = todo.pop(0)
+        for s in assigns_to(fn, n):
+            v = fi.def_value(s, n) if isinstance(s, (ast.Assign, ast.AnnAssign)) else None
+            if isinstance(v, ast.Name) and v.id != n and v.id not in names:
+                names.append(v.id)
+                chain[v.id] = chain[n] + [s]
+                todo.append(v.id)
+    return names, chain
+
+
 def d5_ensemble(ck):
     rule = 'C16.D5.ensemble'
     mod = ck.repo.mod(SD)
@@ -2025,6 +2160,11 @@ def d5_ensemble(ck):
         ck.missing(rule, '`return <populations>, <trajectory>` in synthetic_ensemble')
         return
     P, OBS = rv.elts[0].id, rv.elts[1].id
+    # the returned names may be plain copies (`p, obs = p_run, obs_run`, the result
+    # variables of an inlined helper) of the names the loop works on: the roles are
+    # followed through such copies
+    P_names, P_copies = _copy_aliases(fi, fn, P)
+    OBS_names, _ = _copy_aliases(fi, fn, OBS)
     # advance statements: P = <op>.<f>(P) / P = P @ M / P = M @ P  inside a loop
     loops = [l for l in walk_local(fn) if isinstance(l, (ast.For, ast.While))]
 
@@ -2036,11 +2176,23 @@ def d5_ensemble(ck):
             n = mod.parent.get(n)
         return None
     # (the new state may be computed into a temporary first: nxt = op.rmatvec(p); p = nxt)
-    adv = [s for s in assigns_to(fn, P) if isinstance(s, ast.Assign) and loop_of(s) is not None
-           and P in names_loaded(fi.expand(s.value, stop=(P,)))]
-    if not adv:
-        ck.missing(rule + '.left', 'statement that advances the populations `%s` inside a loop' % P)
+    advs = {q: [s for s in assigns_to(fn, q) if isinstance(s, ast.Assign) and loop_of(s) is not None
+                and fi.def_value(s, q) is not None and q in names_loaded(fi.expand(fi.def_value(s, q), stop=(q,)))]
+            for q in P_names}
+    live = [q for q in P_names if advs[q]]
+    if len(live) != 1:
+        ck.missing(rule + '.left', 'statement that advances the populations `%s` inside a loop%s' % (
+            P, ' (several candidates: %s)' % ', '.join(live) if live else ''))
         return
+    if live[0] != P:
+        # the returned name must hold the FINAL state: every copy on the chain is taken when no advance can follow
+        chain = [c for c in P_copies[live[0]] if any(fi.cfg.reachable(c, a) for a in advs[live[0]])]
+        if chain:
+            ck.missing(rule + '.left', 'the returned populations `%s` are copied from `%s` before the last advance: %s' % (
+                P, live[0], _short(chain[0])))
+            return
+    P = live[0]
+    adv = advs[P]
     ops = set()
     verdicts = []
     is_state = lambda x: fi.xu(x, stop=(P,)) == P
@@ -2130,10 +2282,13 @@ def d5_ensemble(ck):
                   'the operator is T itself (not its transpose)', 'T_op must wrap T')
     # the trajectory is collected per step, in a floating point container
     allocs = ('np.empty', 'np.zeros', 'np.ones', 'np.full', 'np.empty_like', 'np.zeros_like', 'np.ones_like', 'np.full_like')
-    odefs = [s for s in assigns_to(fn, OBS) if isinstance(s, ast.Assign)]
+    odef_pairs = [(s, n) for n in OBS_names for s in assigns_to(fn, n) if isinstance(s, ast.Assign)
+                  and not (isinstance(fi.def_value(s, n), ast.Name) and fi.def_value(s, n).id in OBS_names)]
+    odefs = [s for s, _ in odef_pairs]
+    oval = lambda s: next((fi.def_value(x, n) for x, n in odef_pairs if x is s), None)
     n_alloc = 0
     for s in odefs:
-        v = fi.def_value(s, OBS)
+        v = oval(s)
         if isinstance(v, ast.Call) and call_name(v) in allocs:
             n_alloc += 1
             like = call_name(v).endswith('_like')
@@ -2179,22 +2334,23 @@ def d5_ensemble(ck):
             return None
         recs = []
         for x in ast.walk(loop):
-            if isinstance(x, ast.Call) and isinstance(x.func, ast.Attribute) and x.func.attr == 'append' and u(x.func.value) == OBS \
+            if isinstance(x, ast.Call) and isinstance(x.func, ast.Attribute) and x.func.attr == 'append' and u(x.func.value) in OBS_names \
                     and x.args and new_state_from(x.args[0]) is not None and fi.stmt(x) is not None:
                 recs.append((fi.stmt(x), new_state_from(x.args[0])))
-        for st, t in subscript_stores(loop, OBS):
-            if new_state_from(getattr(st, 'value', None)) is not None:
-                recs.append((st, new_state_from(st.value)))
+        for on in OBS_names:
+            for st, t in subscript_stores(loop, on):
+                if new_state_from(getattr(st, 'value', None)) is not None:
+                    recs.append((st, new_state_from(st.value)))
         if any(fi.cfg.reachable(frm, r, avoiding=[loop]) for r, frm in recs):
             recorded += 1
         elif recs:
             rotated += 1        # recorded before the advance: a rotated loop, not decided here
-    lists = [s for s in odefs if isinstance(fi.def_value(s, OBS), (ast.List, ast.ListComp))]
-    fin = [s for s in odefs if isinstance(fi.def_value(s, OBS), ast.Call) and _cx(fi.def_value(s, OBS)) in
-           CS('np.array(%s)' % OBS, 'np.asarray(%s)' % OBS, 'np.stack(%s)' % OBS, 'np.vstack(%s)' % OBS)]
+    lists = [s for s in odefs if isinstance(oval(s), (ast.List, ast.ListComp))]
+    conv = tuple(c for on in OBS_names for c in CS('np.array(%s)' % on, 'np.asarray(%s)' % on, 'np.stack(%s)' % on, 'np.vstack(%s)' % on))
+    fin = [s for s in odefs if isinstance(oval(s), ast.Call) and _cx(oval(s)) in conv]
     # a list start holds the state before the first step
-    starts_ok = all(isinstance(fi.def_value(s, OBS), ast.List) and len(fi.def_value(s, OBS).elts) == 1 and
-                    P in names_loaded(fi.expand(fi.def_value(s, OBS).elts[0], stop=(P,))) for s in lists)
+    starts_ok = all(isinstance(oval(s), ast.List) and len(oval(s).elts) == 1 and
+                    P in names_loaded(fi.expand(oval(s).elts[0], stop=(P,))) for s in lists)
     shown = '%d of %d advances recorded; %d list starts, %d final conversions, %d preallocations' % (
         recorded, len(adv), len(lists), len(fin), n_alloc)
     if rotated or not starts_ok or not odefs:
